@@ -269,6 +269,22 @@ def c20_lexical(repo, tier):
         # log arguments are dropped by the extraction and never executed for their value
         bad = [b for b in bad if not _inside_log_call(f, b[0])]
         obs.append(ob("lexical-lock/GeckoUdpSocket.%s:shared-lists-under-the-lock" % fn, not bad, "", {"unlocked": bad}))
+    # a shared list is only ever REPLACED by a read-modify-write inside one locked section: the new value is computed from the
+    # live attribute in the same `with self._lock` (a rebuild from a snapshot taken in an earlier section silently drops
+    # whatever another thread registered in between)
+    cls = find_func(tree, "GeckoUdpSocket")
+    for f in ([n for n in cls.body if isinstance(n, ast.FunctionDef)] if cls is not None else []):
+        if f.name == "__init__":
+            continue
+        for n, withs in nodes_with_context(f):
+            if isinstance(n, ast.Assign) and len(n.targets) == 1 and isinstance(n.targets[0], ast.Attribute) \
+                    and isinstance(n.targets[0].value, ast.Name) and n.targets[0].value.id == "self" and n.targets[0].attr in ("_send_handlers", "_receive_handlers"):
+                attr = n.targets[0].attr
+                reads_live = any(isinstance(x, ast.Attribute) and x.attr == attr and isinstance(x.value, ast.Name) and x.value.id == "self"
+                                 for x in ast.walk(n.value))
+                locked = any(with_holds(w, "self._lock") for w in withs)
+                obs.append(ob("lexical-lock/GeckoUdpSocket.%s:%s-replaced-by-read-modify-write-in-one-locked-section" % (f.name, attr),
+                              reads_live and locked, "", {"line": n.lineno, "reads_live_list": reads_live, "locked": locked}))
     bl = find_func(tree, "GeckoUdpSocket._BusyLock")
     if bl is not None:
         for m in bl.body:
